@@ -947,9 +947,23 @@ fn lifetime(repo: &Path) -> Result<String, String> {
         return Err(format!("ModuleData::new: {} `Self {{…}}` literals", md_lit.1.len()));
     }
     let mut field_param: Vec<(String, usize, bool)> = vec![]; // ModuleData field ← parameter index, wrapped in JITModuleWrapper
+    // a local that wraps a parameter first: `let x = JITModuleWrapper(ManuallyDrop::new(<param>));` (x may shadow it)
+    let mut wrapped_locals: Vec<(String, usize)> = vec![];
+    for st in &mdn.block.stmts {
+        if let syn::Stmt::Local(l) = st {
+            if let Some(init) = &l.init {
+                let (x, e) = (norm(&l.pat), norm(&init.expr));
+                if let Some(i) = md_params.iter().position(|p| e == format!("JITModuleWrapper(ManuallyDrop::new({p}))")) {
+                    wrapped_locals.push((x, i));
+                }
+            }
+        }
+    }
     for fv in &md_lit.1[0].fields {
         let (m, e) = (norm(&fv.member), norm(&fv.expr));
-        if let Some(i) = md_params.iter().position(|p| *p == e) {
+        if let Some((_, i)) = wrapped_locals.iter().find(|(x, _)| *x == e) {
+            field_param.push((m, *i, true));
+        } else if let Some(i) = md_params.iter().position(|p| *p == e) {
             field_param.push((m, i, false));
         } else if let Some(i) = md_params.iter().position(|p| e == format!("JITModuleWrapper(ManuallyDrop::new({p}))")) {
             field_param.push((m, i, true));
